@@ -53,7 +53,9 @@ def t_STRING(t):
 
 
 def t_FUNCTION(t):
-    r'([A-Za-z_][A-Za-z_0-9\.]*(?=[(]))|([A-Za-z\.]+(?=[(]))'
+    r'([A-Za-z_][A-Za-z_0-9]*(\.[A-Za-z_0-9]*){0,63}(?=[(]))|([A-Za-z\.]{1,255}(?=[(]))'
+    # (at most 64 dotted parts / 255 characters: unbounded, the search for the parenthesis ran to
+    # the end of a dotted name from each of its parts - quadratic in the length of a.a.a.a...)
     return t
 
 
